@@ -81,7 +81,9 @@ Theorem monitor_files mu c g b : body_ok b = true ->
 Proof.
   intros H. induction ps as [|p ps IH]; intros s; cbn; [constructor|].
   pose proof (iter_files mu c g b s p H) as F. cbn zeta in F.
-  destruct (m_ret (iter mu c g b s p)); repeat constructor; try exact F; try apply IH.
+  destruct (m_ret (iter mu c g b s p)).
+  all: try (constructor; [exact F | constructor]).
+  constructor; [exact F | apply IH].
 Qed.
 
 Lemma the_body_ok : c18_body_case the_body = true.
@@ -113,7 +115,30 @@ Proof.
   intros m [A B]. rewrite A, B. reflexivity.
 Qed.
 
+Theorem snapshot_rows_any_body mu c g b s ps :
+  c18_body_case b = true ->
+  Forall (fun m => option_map rows_of (m_pkl m) = m_csv m) (monitor mu c g b s ps) /\
+  map (fun m => (m_st m, m_ret m)) (monitor mu c g b s ps) = run_states c g s ps.
+Proof.
+  intros H. split.
+  - exact (snapshot_rows mu c g b s ps H).
+  - unfold c18_body_case in H. apply andb_true_iff in H. destruct H as [_ H].
+    exact (monitor_run_states mu c g b H ps s).
+Qed.
+
 (** a body that changes the graph between the two writes is rejected, and for a
     good reason: the files can then differ *)
 Lemma bad_body_rejected : body_ok [MCancel; MExec; MPickle; MMutate; MStatus] = false.
 Proof. reflexivity. Qed.
+
+(** ---- witnesses for the non-vacuity examples of Props/C18.v --------------- *)
+Definition ex_g : graph :=
+  [ {| parents := []; children := [1]; scheduled := true; has_restart := false; rlimit := 0 |};
+    {| parents := [0]; children := []; scheduled := false; has_restart := false; rlimit := 0 |} ].
+Definition ex_cfg : cfg := {| throttle := 0; attempts := 1; dry := false |}.
+Definition ex_pins : list pin :=
+  [ {| cancel_req := false; qcode := QOK; reports := []; psubs := [true] |};
+    {| cancel_req := false; qcode := QOK; reports := [(0, Some RUNNING)]; psubs := [] |};
+    {| cancel_req := false; qcode := QOK; reports := [(0, Some FINISHED)]; psubs := [] |};
+    {| cancel_req := false; qcode := QOK; reports := []; psubs := [true] |} ].
+Definition ex_monitor : list mstate := monitor (fun s => s) ex_cfg ex_g the_body (init ex_g) ex_pins.
